@@ -335,12 +335,9 @@ impl Value {
             .meta
             .take_map_keys()
             .ok_or_else(|| env.error("Value is not a map"))?;
-        for i in &mut keys.indices {
-            if *i >= index {
-                *i += 1;
-            }
-        }
-        if keys.insert(key, index, env.ctx())?.is_some() {
+        // A key that is already present keeps its row, which gets the value.
+        // Only a new key makes room for a row.
+        if let Some(index) = keys.get(&key) {
             self.generic_bin_mut(
                 value,
                 |arr, value| Ok(arr.set_row(index, value)),
@@ -357,6 +354,12 @@ impl Value {
                 },
             )?;
         } else {
+            for i in &mut keys.indices {
+                if *i >= index {
+                    *i += 1;
+                }
+            }
+            keys.insert(key, index, env.ctx())?;
             self.generic_bin_mut(
                 value,
                 |arr, value| Ok(arr.insert_row(index, value)),
